@@ -477,9 +477,13 @@ func (db *DB) get(in Object) (out Object, err error) {
 		}
 	}
 
+	// the file is decoded into a new object, as a cached one is a new
+	// copy: whatever the object of the caller holds (maps, fields left out
+	// of the file) must not leak into what is returned
 	path = filepath.Join(db.oDir(in), s.filename(in))
-	err = unmarshalJsonFile(path, in, s.Compress)
-	out = in
+	out = newIterator(db, in, nil).object()
+	out.Initialize(in.UUID())
+	err = unmarshalJsonFile(path, out, s.Compress)
 
 	// we cache the object, only if it could be read
 	if err == nil && s.mustCache() {
